@@ -191,7 +191,7 @@ def gen_case(rng, tier):
     for _ in range(rng.randint(0, 3)):
         extra_ops.append(['set_assoc_extras', ['live', rng.randrange(64)], rng.choice(EXTRAS)])
     for _ in range(rng.randint(0, 8)):
-        extra_ops.append(['set_defense', ['live', rng.randrange(64)], rng.randrange(16), rng.choice([0.0, 1.0, 0.5, 0.25, 0.0] + ([rng.choice(EDGE_DEF_VALUES)] * 2 if rng.random() < 0.3 else []))])
+        extra_ops.append(['set_defense', ['live', rng.randrange(64)], rng.randrange(16), rng.choice([0.0, 1.0, 0.5, 0.25, 0.0, 0, 1] + ([rng.choice(EDGE_DEF_VALUES)] * 2 if rng.random() < 0.3 else []))])
     hist = hist + extra_ops
     return {'spec': spec if src == 'generated' else 'corelang', 'history': hist,
             'name': rng.choice(['m', 'My model', 'yes', 'null', '1e3', 'a: b', 'ünï', '#x'] + ([rng.choice(EXOTIC)] * 2 if rng.random() < 0.3 else [])),
